@@ -198,16 +198,19 @@ def check_complete(case, ctx: Ctx):
         except Exception:  # noqa: BLE001
             ctx.label("lengthening_impossible_for_this_waveform")
             return
-    if d % clk and chobj.min_avg_amp:
-        # lengthening keeps the area of a Blackman/Kaiser/interpolated waveform: its
-        # average can fall below min_avg_amp - the two halves of the statement conflict
-        # (inside the limits vs only lengthened), acceptance is unspecified
-        try:
-            avg2 = float(np.mean(pulse.amplitude.change_duration(newd).samples.as_array()))
-        except Exception:  # noqa: BLE001
-            avg2 = avg
-        if 0 < avg2 < chobj.min_avg_amp:
-            ctx.label("lengthening_conflicts_with_min_avg_amp")
+    if d % clk:
+        # lengthening keeps the AREA of a Blackman/Kaiser waveform and re-interpolates an
+        # interpolated one: its peak can rise above max_amp (Kaiser 2 -> 3 ns) or its average
+        # fall below min_avg_amp - the two halves of the statement then conflict (inside the
+        # limits vs only lengthened) and acceptance is unspecified
+        amp2 = np.asarray(pulse.amplitude.change_duration(newd).samples.as_array(), dtype=float)
+        det2 = np.asarray(pulse.detuning.change_duration(newd).samples.as_array(), dtype=float)
+        avg2 = float(np.mean(amp2))
+        if ((chobj.max_amp is not None and np.any(amp2 > chobj.max_amp))
+                or (chobj.max_abs_detuning is not None and np.any(np.abs(det2) > chobj.max_abs_detuning))
+                or (chobj.min_avg_amp and 0 < avg2 < chobj.min_avg_amp)
+                or not (np.all(np.isfinite(amp2)) and np.all(np.isfinite(det2)))):
+            ctx.label("lengthened_pulse_outside_limits(conflict)")
             return
     ctx.nontrivial(case["at_limit"] or d % clk != 0)
     ctx.label("at_limit" if case["at_limit"] else "inside", "virtual" if case["virtual"] else "physical",
